@@ -82,5 +82,5 @@ def run(prog, rec):
         except Exception:  # noqa
             tab, outcome = {"t": "table", "edges": s_edges, "phys": phys, "sites": []}, "raise"
         ses.regs = {"tab": tab}
-        ses._emit("site_info", {"sym": sym, "variant": vname}, [], ["tab"], "method", outcome, "")
+        ses._emit("site_info", {"sym": sym, "variant": vname, "multi": bool(prog.get("multi"))}, [], ["tab"], "method", outcome, "")
     ses.close()
